@@ -1,1 +1,140 @@
-//! Verification doors: pipe (cfg(trusttunnel_verif) only)
+//! Verification doors: `pipe::DuplexPipe` on harness-provided endpoints, and the real
+//! pipe endpoints exposed to the harness (cfg(trusttunnel_verif) only)
+
+use crate::{log_utils, pipe};
+use async_trait::async_trait;
+use bytes::Bytes;
+use std::io;
+use std::time::Duration;
+
+/// Mirror of `pipe::Data`
+pub enum VData {
+    Chunk(Bytes),
+    Eof,
+}
+
+/// Public mirror of the crate-private `pipe::Source`
+#[async_trait]
+pub trait VSource: Send {
+    async fn read(&mut self) -> io::Result<VData>;
+    fn consume(&mut self, size: usize) -> io::Result<()>;
+}
+
+/// Public mirror of the crate-private `pipe::Sink`
+#[async_trait]
+pub trait VSink: Send {
+    fn write(&mut self, data: Bytes) -> io::Result<Bytes>;
+    fn eof(&mut self) -> io::Result<()>;
+    async fn wait_writable(&mut self) -> io::Result<()>;
+    async fn flush(&mut self) -> io::Result<()>;
+}
+
+pub(crate) struct SourceIn(pub Box<dyn VSource>);
+pub(crate) struct SinkIn(pub Box<dyn VSink>);
+
+#[async_trait]
+impl pipe::Source for SourceIn {
+    fn id(&self) -> log_utils::IdChain<u64> {
+        log_utils::IdChain::empty()
+    }
+
+    async fn read(&mut self) -> io::Result<pipe::Data> {
+        self.0.read().await.map(|x| match x {
+            VData::Chunk(b) => pipe::Data::Chunk(b),
+            VData::Eof => pipe::Data::Eof,
+        })
+    }
+
+    fn consume(&mut self, size: usize) -> io::Result<()> {
+        self.0.consume(size)
+    }
+}
+
+#[async_trait]
+impl pipe::Sink for SinkIn {
+    fn id(&self) -> log_utils::IdChain<u64> {
+        log_utils::IdChain::empty()
+    }
+
+    fn write(&mut self, data: Bytes) -> io::Result<Bytes> {
+        self.0.write(data)
+    }
+
+    fn eof(&mut self) -> io::Result<()> {
+        self.0.eof()
+    }
+
+    async fn wait_writable(&mut self) -> io::Result<()> {
+        self.0.wait_writable().await
+    }
+
+    async fn flush(&mut self) -> io::Result<()> {
+        self.0.flush().await
+    }
+}
+
+/// A real (crate-private) source handed out to the harness
+pub struct SourceOut(pub(crate) Box<dyn pipe::Source>);
+/// A real (crate-private) sink handed out to the harness
+pub struct SinkOut(pub(crate) Box<dyn pipe::Sink>);
+
+#[async_trait]
+impl VSource for SourceOut {
+    async fn read(&mut self) -> io::Result<VData> {
+        self.0.read().await.map(|x| match x {
+            pipe::Data::Chunk(b) => VData::Chunk(b),
+            pipe::Data::Eof => VData::Eof,
+        })
+    }
+
+    fn consume(&mut self, size: usize) -> io::Result<()> {
+        self.0.consume(size)
+    }
+}
+
+#[async_trait]
+impl VSink for SinkOut {
+    fn write(&mut self, data: Bytes) -> io::Result<Bytes> {
+        self.0.write(data)
+    }
+
+    fn eof(&mut self) -> io::Result<()> {
+        self.0.eof()
+    }
+
+    async fn wait_writable(&mut self) -> io::Result<()> {
+        self.0.wait_writable().await
+    }
+
+    async fn flush(&mut self) -> io::Result<()> {
+        self.0.flush().await
+    }
+}
+
+/// Run `DuplexPipe::exchange` exactly as `Tunnel::on_tcp_connect_request` builds it:
+/// left = (Outgoing, client source, peer sink), right = (Incoming, peer source, client sink).
+/// `metrics(is_outgoing, n)` is the `update_metrics` callback.
+pub async fn duplex_exchange<F>(
+    outgoing: (Box<dyn VSource>, Box<dyn VSink>),
+    incoming: (Box<dyn VSource>, Box<dyn VSink>),
+    timeout: Duration,
+    metrics: F,
+) -> io::Result<()>
+where
+    F: Fn(bool, usize) + Send + Clone,
+{
+    let mut p = pipe::DuplexPipe::new(
+        (
+            pipe::SimplexDirection::Outgoing,
+            Box::new(SourceIn(outgoing.0)),
+            Box::new(SinkIn(outgoing.1)),
+        ),
+        (
+            pipe::SimplexDirection::Incoming,
+            Box::new(SourceIn(incoming.0)),
+            Box::new(SinkIn(incoming.1)),
+        ),
+        move |d, n| metrics(d == pipe::SimplexDirection::Outgoing, n),
+    );
+    p.exchange(timeout).await
+}
